@@ -119,8 +119,11 @@ def main():
             log(f"[build] {p}: {'ok' if ok else 'FAILED'} in {secs:.0f}s")
             if not ok:
                 build_ok = False
-                tail = open(os.path.join(logs, f"codegen-{p}.log"), errors="replace").read()[-3000:]
-                log(tail)
+                import re as _re
+                txt = open(os.path.join(logs, f"codegen-{p}.log"), errors="replace").read()
+                errs = _re.findall(r"^error(?:\[E\d+\])?: .*(?:\n\s+-->.*)?", txt, _re.M)
+                for e in errs[:8]:
+                    log("    " + e.replace("\n", " ")[:300])
         if not build_ok:
             log(f"INCONCLUSIVE property={prop} the overlay of the current tree does not compile under Kani "
                 f"(an anchored item a harness names has changed?)")
